@@ -255,6 +255,9 @@ def report():
     muts = json.load(open(os.path.join(WORK, "mutants.json")))
     st = json.load(open(os.path.join(WORK, "suite.json")))
     res = json.load(open(os.path.join(WORK, "results.json")))
+    # targeted runs at the full quick budget (mutsweep.py full ...), recorded by hand in full.json
+    fullp = os.path.join(WORK, "full.json")
+    full = json.load(open(fullp)) if os.path.exists(fullp) else {}
     tri = os.path.join(ROOT, "seeded", "mutsweep_triage.json")
     triage = json.load(open(tri)) if os.path.exists(tri) else {}
     c = {}
@@ -267,13 +270,17 @@ def report():
         r = res.get(m["id"])
         key = f"{m['file']}:{m['line']}:{m['op']}:{m['new'].strip()}"
         rows.append(dict(id=m["id"], file=m["file"], line=m["line"], op=m["op"], old=m["old"].strip(), new=m["new"].strip(),
-                         detected_by=sorted(p for p, v in (r or {}).items() if v[0] == 1) if r else None,
+                         detected_by_reduced_budget=sorted(p for p, v in (r or {}).items() if v[0] == 1) if r else None,
+                         detected_by_full_quick=sorted(p for p, v in (full.get(m["id"]) or {}).items() if v[0] == 1) or None,
                          triage=triage.get(key)))
-    out = dict(generated_by="tools/mutsweep.py", dig_commit=sh(["git", "-C", "/repo", "rev-parse", "HEAD"]).stdout.strip(),
+    out = dict(generated_by="tools/mutsweep.py (reduced budget = one shard of the quick tier of every check; selected mutants again at the full quick tier)", dig_commit=sh(["git", "-C", "/repo", "rev-parse", "HEAD"]).stdout.strip(),
                mutants=len(muts), suite=c, survivors=rows)
     json.dump(out, open(os.path.join(ROOT, "seeded", "mutsweep.json"), "w"), indent=1)
-    det = sum(1 for r in rows if r["detected_by"])
-    print(f"mutants {len(muts)} {c}; suite survivors {len(rows)}, detected by some check {det}")
+    det = sum(1 for r in rows if r["detected_by_reduced_budget"] or r["detected_by_full_quick"])
+    eq = sum(1 for r in rows if not (r["detected_by_reduced_budget"] or r["detected_by_full_quick"]) and r["triage"])
+    out["summary"] = dict(suite_survivors=len(rows), detected=det, triaged_equivalent_or_outside_the_properties=eq, open=len(rows) - det - eq)
+    json.dump(out, open(os.path.join(ROOT, "seeded", "mutsweep.json"), "w"), indent=1)
+    print(f"mutants {len(muts)} {c}; suite survivors {len(rows)}, detected by some check {det}, triaged {eq}, open {len(rows)-det-eq}")
 
 
 if __name__ == "__main__":
